@@ -4,7 +4,9 @@ Values are immutable Python objects; memory is a dict cell -> value that is
 shallow-copied at forks.  Integers are z3 bit-vectors of their Rust width,
 booleans z3 Bools, strings z3 Strings (or Python str when concrete).
 """
+import os
 import re
+import sys
 import time
 import z3
 
@@ -303,6 +305,13 @@ class VM:
         st._kv = (len(st.pc), pairs)
         return pairs
 
+    def where(self, st):
+        out = []
+        for f in st.frames[-3:]:
+            fn = getattr(f, 'fn', None)
+            out.append(f'{getattr(fn, "name", type(f).__name__)}@bb{getattr(f, "bb", "?")}')
+        return ' > '.join(out)
+
     def feasible(self, st, cond):
         c = simp(cond)
         if z3.is_true(c):
@@ -326,8 +335,16 @@ class VM:
                 return False
         t0 = time.time()
         r = self.solver.check(*(st.pc + [c]))
-        self.solver_time += time.time() - t0
+        dt = time.time() - t0
+        self.solver_time += dt
         self.queries += 1
+        if dt > 1.0 and os.environ.get('MIRSYM_SLOW'):
+            sys.stderr.write(f'[slow query {dt:.1f}s -> {r}] cond={c.sexpr()[:300]!r} pc={len(st.pc)} at {self.where(st)}\n')
+            if os.environ.get('MIRSYM_SLOW') == 'dump':
+                so = z3.Solver()
+                so.add(*st.pc)
+                so.add(c)
+                open(f'/tmp/mir/slow_{self.queries}.smt2', 'w').write(so.to_smt2())
         if r == z3.unknown:
             raise Unsupported('solver returned unknown')
         return r == z3.sat
